@@ -999,9 +999,9 @@ func runOverlap(c *core.Case, r *rand.Rand) {
 	c.Sample(smp)
 }
 
-func negotiatorFor(f xmpp.StreamFeature) xmpp.Negotiator {
+func negotiatorFor(f ...xmpp.StreamFeature) xmpp.Negotiator {
 	return xmpp.NewNegotiator(func(*xmpp.Session, *xmpp.StreamConfig) xmpp.StreamConfig {
-		return xmpp.StreamConfig{Features: []xmpp.StreamFeature{f}}
+		return xmpp.StreamConfig{Features: f}
 	})
 }
 
@@ -1328,6 +1328,15 @@ type recvScenario struct {
 	Perm        string   `json:"perm"` // match | always | never | flip
 	Chunk       int      `json:"chunk,omitempty"`
 	TestSteps   int      `json:"test_mechanism_steps,omitempty"` // > 0: ServerMechs may name X-VERIF-STEPS
+	// Prior: before the judged session another client logs in correctly through
+	// the same feature value (a server shares one feature value between all the
+	// sessions it accepts): what that session was granted is not this one's.
+	Prior bool `json:"prior_login_on_the_same_feature_value,omitempty"`
+	// Extra: the configuration holds a second SASL feature in front of the
+	// judged one (a base feature plus one added per virtual host), with these
+	// mechanisms and a callback that lets nobody in.  The library advertises
+	// both lists and negotiates with the last feature.
+	Extra []string `json:"mechanisms_of_an_earlier_sasl_feature,omitempty"`
 
 	Log        []entry    `json:"delivered,omitempty"`
 	PermLog    []permCall `json:"perm_calls,omitempty"`
@@ -1425,7 +1434,10 @@ func (a *recvAdv) feed(delta []byte) (reply []byte, eof bool) {
 		}
 		a.serverEls = append(a.serverEls, name)
 		if ev.El.Name.Local == "features" && a.headers == 1 {
-			if m := ev.El.Child(nsSASL, "mechanisms"); m != nil {
+			for _, m := range ev.El.Children() { // every <mechanisms/> element of the list
+				if m.Name.Space != nsSASL || m.Name.Local != "mechanisms" {
+					continue
+				}
 				for _, c := range m.Children() {
 					a.advertised = append(a.advertised, c.Text())
 				}
@@ -1736,6 +1748,23 @@ func genRecv(r *rand.Rand) *recvScenario {
 		}
 		return sc
 	}
+	plus := false
+	for _, m := range sc.ServerMechs {
+		plus = plus || strings.HasSuffix(m, "-PLUS")
+	}
+	if !plus && !strings.HasPrefix(sc.Perm, "nil-") {
+		switch r.Intn(8) {
+		case 0:
+			sc.Prior = true
+		case 1:
+			// mechanisms the judged feature does not have
+			for _, m := range saslpeer.Names[:3] {
+				if !contains(sc.ServerMechs, m) {
+					sc.Extra = append(sc.Extra, m)
+				}
+			}
+		}
+	}
 	switch r.Intn(10) {
 	case 0, 1:
 		sc.Script = []string{"auth-ok"}
@@ -1755,7 +1784,8 @@ const plusPanic = "SCRAM *-PLUS mechanism does not implemented yet"
 func runReceiver(c *core.Case, sc *recvScenario) {
 	c.Sample(sc)
 	c.Count("recv_cases", 1)
-	adv := &recvAdv{sc: sc, r: c.Rand, successAt: -1, replyAfter: map[int][]string{}}
+	main := &recvAdv{sc: sc, r: c.Rand, successAt: -1, replyAfter: map[int][]string{}}
+	adv := main
 	var mechs []sasl.Mechanism
 	for _, n := range sc.ServerMechs {
 		mechs = append(mechs, mechByName(n, sc.TestSteps))
@@ -1790,7 +1820,32 @@ func runReceiver(c *core.Case, sc *recvScenario) {
 	if strings.HasPrefix(sc.Perm, "nil-") {
 		c.Count("recv_cases_without_permission_callback_"+strings.TrimPrefix(sc.Perm, "nil-"), 1)
 	}
+	if sc.Prior {
+		// the earlier session: a correct login, through the same feature value
+		psc := &recvScenario{Role: "receiver", ServerMechs: sc.ServerMechs, Script: []string{"auth-ok"}, Perm: sc.Perm}
+		adv = &recvAdv{sc: psc, r: c.Rand, successAt: -1, replyAfter: map[int][]string{}}
+		pconn := bufconn.NewScripted(adv.feed)
+		var ps *xmpp.Session
+		c.Guard("ReceiveSession(prior)", func() {
+			ps, _ = xmpp.ReceiveSession(context.Background(), pconn, xmpp.Secure, negotiatorFor(base))
+		})
+		pconn.Close()
+		if ps != nil && ps.State()&xmpp.Authn != 0 {
+			c.Count("recv_cases_after_an_accepted_login_on_the_same_feature_value", 1)
+		}
+		adv, perms = main, nil
+	}
 	feat := wrap(base, res, func() int { return len(adv.log) })
+	var extraPerms int
+	feats := []xmpp.StreamFeature{feat}
+	if len(sc.Extra) > 0 {
+		var em []sasl.Mechanism
+		for _, n := range sc.Extra {
+			em = append(em, mechByName(n, 0))
+		}
+		feats = []xmpp.StreamFeature{xmpp.SASLServer(func(*sasl.Negotiator) bool { extraPerms++; return false }, em...), feat}
+		c.Count("recv_cases_with_two_sasl_features_configured", 1)
+	}
 	conn := bufconn.NewScripted(adv.feed)
 	if sc.Chunk > 0 {
 		k := sc.Chunk
@@ -1812,7 +1867,7 @@ func runReceiver(c *core.Case, sc *recvScenario) {
 				panic(r)
 			}
 		}()
-		s, err = xmpp.ReceiveSession(context.Background(), conn, xmpp.Secure, negotiatorFor(feat))
+		s, err = xmpp.ReceiveSession(context.Background(), conn, xmpp.Secure, negotiatorFor(feats...))
 	})
 	conn.Close()
 	if knownPanic {
@@ -1841,8 +1896,8 @@ func runReceiver(c *core.Case, sc *recvScenario) {
 	}
 	// what the server advertised must be what was configured (the acceptor uses
 	// "configured" for "offered by both sides")
-	if adv.headers > 0 && len(adv.advertised) > 0 && strings.Join(adv.advertised, ",") != strings.Join(sc.ServerMechs, ",") {
-		c.Violate("authn:receiver:advertised-differs-from-configured", "configured %q, advertised %q", sc.ServerMechs, adv.advertised)
+	if configured := append(append([]string{}, sc.Extra...), sc.ServerMechs...); adv.headers > 0 && len(adv.advertised) > 0 && strings.Join(adv.advertised, ",") != strings.Join(configured, ",") {
+		c.Violate("authn:receiver:advertised-differs-from-configured", "configured %q, advertised %q", configured, adv.advertised)
 	}
 
 	state := xmpp.SessionState(0)
@@ -1879,6 +1934,9 @@ func runReceiver(c *core.Case, sc *recvScenario) {
 	}
 	if authn && ok {
 		c.Count("recv_accept_"+lastMech, 1)
+	}
+	if authn && lastMech != "" && adv.headers > 0 && !contains(adv.advertised, lastMech) {
+		c.Violate("authn:receiver:"+fam+":mechanism-not-advertised", "the receiver reports Authn after <auth mechanism=%q/>, a mechanism it had not advertised (advertised %q; configured: %q then %q)", lastMech, adv.advertised, sc.Extra, sc.ServerMechs)
 	}
 	if ok && !authn {
 		c.Count("recv_legit_exchange_not_authenticated", 1)
